@@ -5,6 +5,7 @@
 # worktree and its build output afterwards. Prints one summary line per check.
 set -u
 CH="$1"; PROPS="$2"; NOBASE="${3:-}"
+[[ -f "$CH" ]] && CH="$(readlink -f "$CH")"
 V=/verif
 W=$(mktemp -d /tmp/mw-XXXXXX)
 git -C /repo worktree add -q --detach "$W" HEAD || exit 2
